@@ -166,7 +166,11 @@ pub fn explore_responses(ctx: &'static Ctx, prop: &'static str, oracle: Oracle) 
                     let umax = info.menu.iter().filter_map(|v| if let V::U(x) = v { Some(*x) } else { None }).max();
                     let bmax = info.menu.iter().filter_map(|v| if let V::B(x) = v { Some(x.len()) } else { None }).max();
                     let tmax = info.menu.iter().filter_map(|v| if let V::T(x) = v { Some(x.len()) } else { None }).max();
-                    for b in special {
+                    // every byte value where everything / only the required members are present,
+                    // the structural ones in the messages that end in this member
+                    let all: Vec<u8> = (0..=255).collect();
+                    let bytes_here: &[u8] = if m == full || m == 0 { &all } else { &special };
+                    for b in bytes_here.iter().copied() {
                         if let Some(mx) = umax {
                             for x in [b as u64, 0x0f00 | b as u64, 0x0100_0000 | b as u64] {
                                 if x <= mx {
@@ -196,8 +200,27 @@ pub fn explore_responses(ctx: &'static Ctx, prop: &'static str, oracle: Oracle) 
                     }
                 }
             }
+            // every length of every byte-string / text member (chunked copies, packet arithmetic)
+            for m in [full, 0] {
+                for (li, info) in plan.leaves.iter().enumerate() {
+                    if !plan.leaf_enabled(li, m) {
+                        continue;
+                    }
+                    let blens: std::collections::BTreeSet<usize> = info.menu.iter().filter_map(|v| if let V::B(x) = v { Some(x.len()) } else { None }).collect();
+                    let tlens: std::collections::BTreeSet<usize> = info.menu.iter().filter_map(|v| if let V::T(x) = v { Some(x.len()) } else { None }).collect();
+                    if blens.len() > 2 {
+                        for n in 0..=*blens.iter().max().unwrap() {
+                            cases.push((m, li, V::B(crate::refmodel::fill_bytes(n, li)), format!("{} bytes", n)));
+                        }
+                    } else if tlens.len() > 2 {
+                        for n in 0..=(*tlens.iter().max().unwrap()).min(300) {
+                            cases.push((m, li, V::t(&crate::refmodel::fill_text(n, li)), format!("text of {} bytes", n)));
+                        }
+                    }
+                }
+            }
             let (sh3, cr) = (sh.clone(), &cases);
-            sweep(ctx, &format!("{} response: values ending in structural bytes", kind.name()), cases.len() as u64, "every leaf x values whose encoding ends in A0 / 80 / 40 / 60 / F6 / F7 / FF / 00 / BF / 9F / A1 / 18, with everything present, with only the member's own top-level member present, and with all top-level members up to it present (the value is then the end of the message)", move |idx, l| {
+            sweep(ctx, &format!("{} response: values ending in structural bytes", kind.name()), cases.len() as u64, "every leaf x values whose encoding ends in every byte value (everything present / only required members present) resp. in A0 / 80 / 40 / 60 / F6 / F7 / FF / 00 / BF / 9F / A1 / 18 (only the member's own top-level member present; all top-level members up to it present: the value is then the end of the message); every length 0..=capacity of every byte-string and text member", move |idx, l| {
                 let (m, li, v, _) = &cr[idx as usize];
                 let wire = sh3.plan.build_with(*m, &[], &[(*li, v.clone())]);
                 l.nontrivial += 1;
